@@ -99,12 +99,6 @@ func (c dcCase) run(solid model3d.Solid, delta float64, cfg dcCfg, rowSize int) 
 }
 
 func checkDC(c dcCase, o *kit.Obs) error {
-	if c.Repair && kit.Excluded("dc-repair-order") {
-		// known finding: the repair pass visits singular edges / vertices in Go map order and each repair changes
-		// the neighbourhood of the next, so two identical runs differ; the rest of the case is still checked
-		kit.CountExcluded("dc-repair-order")
-		c.Repair = false
-	}
 	solid := c.Src.Solid()
 	if !model3d.BoundsValid(solid) {
 		o.Skip("invalid-bounds")
